@@ -435,3 +435,51 @@ pub fn a_verify_iff() {
     vcover!(!got && idv[0] == b'v' && idv[1] == b'4', "v4 with a bad signature");
     assert!(got == want, "C05: verify() holds exactly for id v4 and a signature of the carried key over the record's content");
 }
+
+// ------------------------------------------------------------------------------------------------
+// client_info (EIP-7636): any list of 0..=4 byte strings of at most one byte each under "client"
+// ------------------------------------------------------------------------------------------------
+
+/// client_info() on concrete client entries (lists of 0..=4 one-byte strings "a".."d"): never
+/// panics, Some exactly for two or three elements, then exactly those strings. (Symbolic string
+/// contents run the lossy UTF-8 conversion and `Vec<Bytes>` decoding symbolically: out of memory at
+/// 10 GB, so the contents are concrete; `cnt` is concrete per harness.)
+#[inline(always)]
+fn client_body(cnt: u8) {
+    let raw: [u8; 5] = [0xc0 + cnt, b'a', b'b', b'c', b'd'];
+    let mut sm = SortedMap::new();
+    sm.push(b"client", mk_bytes(&raw[..1 + cnt as usize]));
+    let e = rec(sm.done());
+    let got = e.client_info();
+    core::mem::forget(e);
+    let good = match (&got, cnt) {
+        (None, 0) | (None, 1) | (None, 4) => true,
+        (Some((a, b, None)), 2) => a.as_bytes() == b"a" && b.as_bytes() == b"b",
+        (Some((a, b, Some(x))), 3) => a.as_bytes() == b"a" && b.as_bytes() == b"b" && x.as_bytes() == b"c",
+        _ => false,
+    };
+    core::mem::forget(got);
+    assert!(good, "C14: client_info reports exactly the two or three strings stored, and nothing for other lists");
+}
+#[cfg_attr(kani, kani::proof)]
+pub fn a14_client_0() {
+    client_body(0)
+}
+#[cfg_attr(kani, kani::proof)]
+pub fn a14_client_1() {
+    client_body(1)
+}
+#[cfg_attr(kani, kani::proof)]
+#[cfg_attr(kani, kani::stub(std::string::String::from_utf8_lossy, lossy_stub))]
+pub fn a14_client_2() {
+    client_body(2)
+}
+#[cfg_attr(kani, kani::proof)]
+#[cfg_attr(kani, kani::stub(std::string::String::from_utf8_lossy, lossy_stub))]
+pub fn a14_client_3() {
+    client_body(3)
+}
+#[cfg_attr(kani, kani::proof)]
+pub fn a14_client_4() {
+    client_body(4)
+}
